@@ -175,6 +175,12 @@ pub fn tx_case(ctx: &Ctx, r: &RawSpec, counting: bool) -> PResult {
 			ensure!(res.is_ok(), format!("control-rejected:{:?}", t), "control mutation {:?} (still balanced, re-signed) rejected: {:?} spec {:?}", t, res.err().map(|e| err_name(&e)), spec);
 		} else {
 			ensure!(res.is_err(), format!("corrupt-tx-accepted:{:?}", t), "corrupted transaction ({:?}, pick {}) accepted; spec {:?}", t, pick, spec);
+			if counting {
+				// the reason each corruption is refused for (shows a corruption that is only ever refused for a side effect)
+				if let Err(e) = &res {
+					ev.class(&format!("tx_refusal:{:?}:{}", t, err_name(e)));
+				}
+			}
 		}
 	}
 	Ok(())
